@@ -267,6 +267,10 @@ func initTopicP2P(t *Topic, sreg *ClientComMessage) error {
 		}
 		t.lastID = stopic.SeqId
 		t.delID = stopic.DelId
+		if stopic.State == types.StateSuspended {
+			// One of the users is suspended: the topic stays read-only when it is loaded again.
+			t.markReadOnly(true)
+		}
 	}
 
 	// t.owner is blank for p2p topics
@@ -665,6 +669,10 @@ func initTopicGrp(t *Topic) error {
 	}
 	t.lastID = stopic.SeqId
 	t.delID = stopic.DelId
+	if stopic.State == types.StateSuspended {
+		// The owner is suspended: the topic stays read-only when it is loaded again.
+		t.markReadOnly(true)
+	}
 
 	// Initialize channel for receiving session online updates.
 	t.supd = make(chan *sessionUpdate, 32)
